@@ -608,6 +608,91 @@ def m_result_comb(kind):
     return f
 
 
+def m_checked_div(op):
+    """iN::checked_div / checked_rem: None iff the divisor is 0 (or MIN / -1), else Some(quotient)"""
+    def f(I, st, args, dest_ty, *r):
+        a, b = args
+        d = a.deps() | b.deps()
+        if a.kind != "int" or b.kind != "int":
+            return EnumV("Option", None, (), 2, d, {0: (), 1: (TopV(_option_inner(dest_ty), d),)})
+        zero_possible = b.lo <= 0 <= b.hi and 0 not in b.excl
+        only_zero = b.is_const() and b.lo == 0
+        if only_zero:
+            return EnumV("Option", 0, (), 2, d)
+        # quotient on the paths where the divisor is not 0: magnitude bounded by the dividend's
+        m = max(abs(a.lo), abs(a.hi))
+        lo = -m if (a.signed or b.signed) else 0
+        q = IntV.top(a.ty, d, max(lo, M.type_range(a.ty)[0]), min(m, M.type_range(a.ty)[1])) if op == "Div" else IntV.top(a.ty, d)
+        I.div_vids.add(q.vid)  # a quotient: narrowing casts of it are what C03.R3 looks at
+        if not zero_possible:
+            return EnumV("Option", 1, (q,), 2, d)
+        return EnumV("Option", None, (), 2, d, {0: (), 1: (q,)})
+    return f
+
+
+def m_ok_or(I, st, args, dest_ty, *r):
+    v, e = args[0], args[1]
+    d = _deps(I, st, args)
+    if v.kind != "enum":
+        return TopV(dest_ty, d)
+    if v.variant == 1:
+        return EnumV("Result", 0, tuple(v.fields[:1]), 2, v.ddeps)
+    if v.variant == 0:
+        return EnumV("Result", 1, (e,), 2, v.ddeps)
+    some = (v.alts or {}).get(1)
+    alts = {1: (e,)}
+    if some:
+        alts[0] = tuple(some[:1])
+    return EnumV("Result", None, (), 2, v.ddeps | d, alts)
+
+
+def m_try_branch(I, st, args, dest_ty, *r):
+    """<Result/Option as Try>::branch: Continue(payload) for Ok/Some, Break(residual) for Err/None"""
+    v = args[0]
+    d = v.deps()
+    if v.kind != "enum":
+        return TopV(dest_ty, d)
+    is_opt = v.name == "Option" or "Option" in dest_ty.split("ControlFlow<", 1)[-1].split(",")[0]
+    ok_i, bad_i = (1, 0) if is_opt else (0, 1)
+    known = v.variant
+
+    def payload(i):
+        if known == i:
+            return tuple(v.fields)
+        return tuple((v.alts or {}).get(i, ())) if known is None and (v.alts is None or i in v.alts) else None
+    okp, badp = payload(ok_i), payload(bad_i)
+    alts = {}
+    if okp is not None:
+        alts[0] = (okp[0] if okp else UNIT,)
+    if badp is not None:
+        alts[1] = (EnumV(v.name, bad_i, badp, 2, v.ddeps),)
+    if len(alts) == 1:
+        k = next(iter(alts))
+        return EnumV("ControlFlow", k, alts[k], 2, v.ddeps)
+    return EnumV("ControlFlow", None, (), 2, v.ddeps | d, alts)
+
+
+def m_from_residual(I, st, args, dest_ty, *r):
+    """FromResidual::from_residual: the Err/None is handed on (the error value's From conversion is the identity here)"""
+    v = args[0]
+    if v.kind == "enum":
+        name = "Option" if (v.name == "Option" or dest_ty.lstrip("std::option::").startswith("Option")) else "Result"
+        return EnumV(name, v.variant, v.fields, 2, v.ddeps, v.alts)
+    return TopV(dest_ty, v.deps())
+
+
+def m_option_copied(I, st, args, dest_ty, *r):
+    v = args[0]
+    if v.kind != "enum":
+        return TopV(dest_ty, v.deps())
+
+    def de(x):
+        return _deref(I, st, x) if x.kind == "ref" else x
+    if v.variant is not None:
+        return EnumV("Option", v.variant, tuple(de(x) for x in v.fields), 2, v.ddeps)
+    return EnumV("Option", None, (), 2, v.ddeps, {k: tuple(de(x) for x in fs) for k, fs in (v.alts or {}).items()})
+
+
 def m_str_parse(I, st, args, dest_ty, *r):
     """str::parse::<T>() for integer T: from_str_radix(.., 10)"""
     return m_from_str_radix(I, st, [args[0], IntV.const("u32", 10)], dest_ty, *r)
@@ -909,6 +994,12 @@ MODELS = [(re.compile(p), f) for p, f in [
     (r"from_str_radix$", m_from_str_radix),
     (r"Option::<T>::unwrap$|Result::<T, E>::unwrap$|::expect$", m_unwrap),
     (r"Option::<T>::unwrap_or$", m_unwrap_or),
+    (r"num::<impl [iu]\w+>::checked_div$", m_checked_div("Div")),
+    (r"num::<impl [iu]\w+>::checked_rem$", m_checked_div("Rem")),
+    (r"Option::<T>::ok_or(::<|$)", m_ok_or),
+    (r"Option::<&T>::copied$|Option::<&T>::cloned$|Option::<&mut T>::copied$", m_option_copied),
+    (r"ops::Try>::branch$", m_try_branch),
+    (r"ops::FromResidual<.*>>::from_residual$|ops::FromResidual>::from_residual$", m_from_residual),
     (r"Result::<T, E>::map(::<|$)", m_result_comb("map")),
     (r"Result::<T, E>::map_err(::<|$)", m_result_comb("map_err")),
     (r"Result::<T, E>::and_then(::<|$)", m_result_comb("and_then")),
